@@ -617,6 +617,10 @@ func (g *generator) nextInner() Op {
 			}
 			if faulty && g.pct(30) {
 				op.N = -g.rng.Intn(2)
+			} else if faulty && g.pct(40) {
+				// a target for a builder that names no relation component
+				op.HasRel, op.HasTgt = false, true
+				op.Tgt = g.target(false)
 			}
 			if g.pct(40) {
 				op.Q = true
@@ -729,6 +733,9 @@ func (g *generator) nextInner() Op {
 					if newRel >= 0 && g.pct(70) {
 						op.HasRel, op.Rel, op.HasTgt = true, newRel, true
 						op.Tgt = g.targetFor(ref, faulty && g.pct(50))
+					} else if faulty && g.pct(50) {
+						op.HasTgt = true // a target for a builder that names no relation component
+						op.Tgt = g.target(false)
 					}
 				}
 			case len(add) == 0 && g.pct(40):
